@@ -117,6 +117,11 @@ func Verif_C09_ApkScripts() {
 			}
 		}
 	}
+	// two events may be served by one script file: both slots must then carry it
+	if set[0] && set[1] && v.NondetBool("share.one.file") {
+		sc.Info.Scripts.PostInstall = sc.Info.Scripts.PreInstall
+		body[1] = body[0]
+	}
 	segs, ok := verifBuild(sc, 2)
 	v.Reach("C09.apk.ran")
 	if !ok {
